@@ -45,4 +45,116 @@ VF_E void ymdl_plus_months(int y, unsigned m, int dm, int* yo, unsigned* mo) { a
 VF_E bool md_ok(unsigned m, unsigned d) { return ch::month_day{ch::month{m}, ch::day{d}}.ok(); }
 VF_E bool wdi_ok(unsigned w, unsigned i) { return ch::weekday_indexed{ch::weekday{w}, i}.ok(); }
 VF_E unsigned wdi_index(unsigned w, unsigned i) { return ch::weekday_indexed{ch::weekday{w}, i}.index(); }
+
+// ---------------------------------------------------------------------------------------------------------------------
+// Every mutating operator, every binary operator form, every ok(), every operator/ overload. The object is always built
+// from its FIELDS (all of these classes are plain field records whose public constructor stores the fields; any
+// representation detail behind it - e.g. a cached value - is the constructor's business), then the operator sequence is
+// applied and EVERY accessor is read back: p[] after the first operator, o[] after the second.
+//   compound ops: 0 x += months{a}   1 x -= months{a}   2 x += years{a}   3 x -= years{a}   >= 4 nothing
+//   binary forms: 0 x + months  1 months + x  2 x - months  3 x + years  4 years + x  5 x - years
+template <class T> static bool cop(T& x, unsigned op, int a) {
+    if (op == 0) { return &(x += ch::months{a}) == &x; }
+    if (op == 1) { return &(x -= ch::months{a}) == &x; }
+    if (op == 2) { return &(x += ch::years{a}) == &x; }
+    if (op == 3) { return &(x -= ch::years{a}) == &x; }
+    return true;
+}
+template <class T> static T bop(T const& x, unsigned op, int a) {
+    if (op == 0) { return x + ch::months{a}; }
+    if (op == 1) { return ch::months{a} + x; }
+    if (op == 2) { return x - ch::months{a}; }
+    if (op == 3) { return x + ch::years{a}; }
+    if (op == 4) { return ch::years{a} + x; }
+    return x - ch::years{a};
+}
+static void rd_ym(ch::year_month const& x, int* o) { o[0] = int{x.year()}; o[1] = int(unsigned{x.month()}); o[2] = x.ok(); }
+// days != 0: also the sys_days / local_days conversions (only of existing dates)
+static void rd_ymd(ch::year_month_day const& x, int* o, int days) { o[0] = int{x.year()}; o[1] = int(unsigned{x.month()}); o[2] = int(unsigned{x.day()}); o[3] = x.ok();
+    if (days != 0 && x.ok()) { o[4] = ch::sys_days{x}.time_since_epoch().count(); o[5] = ch::local_days{x}.time_since_epoch().count(); } }
+static void rd_ymdl(ch::year_month_day_last const& x, int* o, int days) { o[0] = int{x.year()}; o[1] = int(unsigned{x.month()}); o[2] = int(unsigned{x.day()}); o[3] = x.ok();
+    o[4] = int(unsigned{x.month_day_last().month()}); o[5] = x.month_day_last().ok();
+    ch::year_month_day const c{x}; o[6] = int{c.year()}; o[7] = int(unsigned{c.month()}); o[8] = int(unsigned{c.day()}); o[9] = c.ok();
+    if (days != 0 && c.ok()) { o[10] = ch::sys_days{c}.time_since_epoch().count(); } }
+static void rd_ymw(ch::year_month_weekday const& x, int* o) { o[0] = int{x.year()}; o[1] = int(unsigned{x.month()}); o[2] = int(x.weekday().c_encoding()); o[3] = int(x.index());
+    o[4] = int(x.weekday_indexed().weekday().c_encoding()); o[5] = int(x.weekday_indexed().index()); o[6] = x.ok(); }
+VF_E void ym_cseq(int y, unsigned m, unsigned op1, int a1, unsigned op2, int a2, int* p, int* o) { auto x = ch::year_month{ch::year{y}, ch::month{m}}; p[11] = cop(x, op1, a1); rd_ym(x, p); o[11] = cop(x, op2, a2); rd_ym(x, o); }
+VF_E void ymd_cseq(int y, unsigned m, unsigned d, unsigned op1, int a1, unsigned op2, int a2, int days, int* p, int* o) { auto x = ch::year_month_day{ch::year{y}, ch::month{m}, ch::day{d}}; p[11] = cop(x, op1, a1); rd_ymd(x, p, days); o[11] = cop(x, op2, a2); rd_ymd(x, o, days); }
+VF_E void ymdl_cseq(int y, unsigned m, unsigned op1, int a1, unsigned op2, int a2, int days, int* p, int* o) { auto x = ch::year_month_day_last{ch::year{y}, ch::month_day_last{ch::month{m}}}; p[11] = cop(x, op1, a1); rd_ymdl(x, p, days); o[11] = cop(x, op2, a2); rd_ymdl(x, o, days); }
+VF_E void ym_bin(int y, unsigned m, unsigned op, int a, int* o) { rd_ym(bop(ch::year_month{ch::year{y}, ch::month{m}}, op, a), o); }
+VF_E void ymd_bin(int y, unsigned m, unsigned d, unsigned op, int a, int days, int* o) { rd_ymd(bop(ch::year_month_day{ch::year{y}, ch::month{m}, ch::day{d}}, op, a), o, days); }
+VF_E void ymdl_bin(int y, unsigned m, unsigned op, int a, int days, int* o) { rd_ymdl(bop(ch::year_month_day_last{ch::year{y}, ch::month_day_last{ch::month{m}}}, op, a), o, days); }
+VF_E void ymw_bin(int y, unsigned m, unsigned w, unsigned i, unsigned op, int a, int* o) { rd_ymw(bop(ch::year_month_weekday{ch::year{y}, ch::month{m}, ch::weekday_indexed{ch::weekday{w}, i}}, op, a), o); }
+VF_E void ymw_get(int y, unsigned m, unsigned w, unsigned i, int* o) { rd_ymw(ch::year_month_weekday{ch::year{y}, ch::month{m}, ch::weekday_indexed{ch::weekday{w}, i}}, o); }
+VF_E void ymdl_get(int y, unsigned m, int days, int* o) { rd_ymdl(ch::year_month_day_last{ch::year{y}, ch::month_day_last{ch::month{m}}}, o, days); }
+VF_E bool ymw_eq(int y, unsigned m, unsigned w, unsigned i, int y2, unsigned m2, unsigned w2, unsigned i2) { return ch::year_month_weekday{ch::year{y}, ch::month{m}, ch::weekday_indexed{ch::weekday{w}, i}} == ch::year_month_weekday{ch::year{y2}, ch::month{m2}, ch::weekday_indexed{ch::weekday{w2}, i2}}; }
+// single-field classes: op 0 ++x  1 x++  2 --x  3 x--  4 x += a  5 x -= a  (year: 6 -x  7 +x).  o[0] value afterwards, o[1] value of the expression, o[2] prefix/compound forms return *this, o[3] ok() afterwards
+VF_E void year_step(int y, unsigned op, int a, int* o) { auto x = ch::year{y}; int r = 0; bool s = true;
+    if (op == 0) { s = &(++x) == &x; r = int{x}; } else if (op == 1) { r = int{x++}; } else if (op == 2) { s = &(--x) == &x; r = int{x}; } else if (op == 3) { r = int{x--}; }
+    else if (op == 4) { s = &(x += ch::years{a}) == &x; r = int{x}; } else if (op == 5) { s = &(x -= ch::years{a}) == &x; r = int{x}; } else if (op == 6) { r = int{-x}; } else { r = int{+x}; }
+    o[0] = int{x}; o[1] = r; o[2] = s; o[3] = x.ok(); }
+VF_E void month_step(unsigned m, unsigned op, int a, int* o) { auto x = ch::month{m}; unsigned r = 0; bool s = true;
+    if (op == 0) { s = &(++x) == &x; r = unsigned{x}; } else if (op == 1) { r = unsigned{x++}; } else if (op == 2) { s = &(--x) == &x; r = unsigned{x}; } else if (op == 3) { r = unsigned{x--}; }
+    else if (op == 4) { s = &(x += ch::months{a}) == &x; r = unsigned{x}; } else { s = &(x -= ch::months{a}) == &x; r = unsigned{x}; }
+    o[0] = int(unsigned{x}); o[1] = int(r); o[2] = s; o[3] = x.ok(); }
+VF_E void day_step(unsigned d, unsigned op, int a, int* o) { auto x = ch::day{d}; unsigned r = 0; bool s = true;
+    if (op == 0) { s = &(++x) == &x; r = unsigned{x}; } else if (op == 1) { r = unsigned{x++}; } else if (op == 2) { s = &(--x) == &x; r = unsigned{x}; } else if (op == 3) { r = unsigned{x--}; }
+    else if (op == 4) { s = &(x += ch::days{a}) == &x; r = unsigned{x}; } else { s = &(x -= ch::days{a}) == &x; r = unsigned{x}; }
+    o[0] = int(unsigned{x}); o[1] = int(r); o[2] = s; o[3] = x.ok(); }
+VF_E void weekday_step(unsigned w, unsigned op, int a, int* o) { auto x = ch::weekday{w}; unsigned r = 0; bool s = true;
+    if (op == 0) { s = &(++x) == &x; r = x.c_encoding(); } else if (op == 1) { r = (x++).c_encoding(); } else if (op == 2) { s = &(--x) == &x; r = x.c_encoding(); } else if (op == 3) { r = (x--).c_encoding(); }
+    else if (op == 4) { s = &(x += ch::days{a}) == &x; r = x.c_encoding(); } else { s = &(x -= ch::days{a}) == &x; r = x.c_encoding(); }
+    o[0] = int(x.c_encoding()); o[1] = int(r); o[2] = s; o[3] = x.ok(); }
+VF_E unsigned month_plus_c(unsigned m, int d) { return unsigned{ch::months{d} + ch::month{m}}; }
+VF_E int year_plus_c(int y, int d) { return int{ch::years{d} + ch::year{y}}; }
+VF_E unsigned day_plus_c(unsigned x, int d) { return unsigned{ch::days{d} + ch::day{x}}; }
+VF_E unsigned wd_plus_c(unsigned w, int d) { return (ch::days{d} + ch::weekday{w}).c_encoding(); }
+// ok() of the remaining classes
+VF_E bool ym_ok(int y, unsigned m) { return ch::year_month{ch::year{y}, ch::month{m}}.ok(); }
+VF_E bool mdl_ok(unsigned m) { return ch::month_day_last{ch::month{m}}.ok(); }
+VF_E bool wdl_ok(unsigned w) { return ch::weekday_last{ch::weekday{w}}.ok(); }
+VF_E bool mwd_ok(unsigned m, unsigned w, unsigned i) { return ch::month_weekday{ch::month{m}, ch::weekday_indexed{ch::weekday{w}, i}}.ok(); }
+VF_E bool mwdl_ok(unsigned m, unsigned w) { return ch::month_weekday_last{ch::month{m}, ch::weekday_last{ch::weekday{w}}}.ok(); }
+VF_E bool ymw_ok(int y, unsigned m, unsigned w, unsigned i) { return ch::year_month_weekday{ch::year{y}, ch::month{m}, ch::weekday_indexed{ch::weekday{w}, i}}.ok(); }
+// every operator/ overload (and weekday[]) : the fields of the composed object, o[0..] in the order year, month, day / weekday, index; o[7] ok()
+VF_E void slash_ym(unsigned f, int y, unsigned m, int* o) { rd_ym(f == 0 ? ch::year{y} / ch::month{m} : ch::year{y} / int(m), o); }
+VF_E void slash_ymd(unsigned f, int y, unsigned m, unsigned d, int* o) { auto const Y = ch::year{y}; auto const M = ch::month{m}; auto const D = ch::day{d};
+    if (f == 0) { rd_ymd(ch::year_month{Y, M} / D, o, 0); } else if (f == 1) { rd_ymd(ch::year_month{Y, M} / int(d), o, 0); } else if (f == 2) { rd_ymd(Y / ch::month_day{M, D}, o, 0); }
+    else if (f == 3) { rd_ymd(y / ch::month_day{M, D}, o, 0); } else if (f == 4) { rd_ymd(ch::month_day{M, D} / Y, o, 0); } else { rd_ymd(ch::month_day{M, D} / y, o, 0); } }
+VF_E void slash_md(unsigned f, unsigned m, unsigned d, int* o) { auto const M = ch::month{m}; auto const D = ch::day{d};
+    auto const x = f == 0 ? M / D : f == 1 ? M / int(d) : f == 2 ? int(m) / D : f == 3 ? D / M : D / int(m);
+    o[0] = int(unsigned{x.month()}); o[1] = int(unsigned{x.day()}); o[2] = x.ok(); }
+VF_E void slash_mdl(unsigned f, unsigned m, int* o) { auto const M = ch::month{m};
+    auto const x = f == 0 ? M / ch::last : f == 1 ? int(m) / ch::last : f == 2 ? ch::last / M : ch::last / int(m);
+    o[0] = int(unsigned{x.month()}); o[1] = x.ok(); }
+VF_E void slash_ymdl(unsigned f, int y, unsigned m, int* o) { auto const Y = ch::year{y}; auto const L = ch::month_day_last{ch::month{m}};
+    if (f == 0) { rd_ymdl(ch::year_month{Y, ch::month{m}} / ch::last, o, 0); } else if (f == 1) { rd_ymdl(Y / L, o, 0); } else if (f == 2) { rd_ymdl(y / L, o, 0); } else if (f == 3) { rd_ymdl(L / Y, o, 0); } else { rd_ymdl(L / y, o, 0); } }
+VF_E void slash_mwd(unsigned f, unsigned m, unsigned w, unsigned i, int* o) { auto const M = ch::month{m}; auto const W = ch::weekday{w}[i];
+    auto const x = f == 0 ? M / W : f == 1 ? int(m) / W : f == 2 ? W / M : W / int(m);
+    o[0] = int(unsigned{x.month()}); o[1] = int(x.weekday_indexed().weekday().c_encoding()); o[2] = int(x.weekday_indexed().index()); o[3] = x.ok(); }
+VF_E void slash_mwdl(unsigned f, unsigned m, unsigned w, int* o) { auto const M = ch::month{m}; auto const W = ch::weekday{w}[ch::last];
+    auto const x = f == 0 ? M / W : f == 1 ? int(m) / W : f == 2 ? W / M : W / int(m);
+    o[0] = int(unsigned{x.month()}); o[1] = int(x.weekday_last().weekday().c_encoding()); o[2] = x.ok(); }
+// comparison operators: bit 0 ==, 1 <, 2 <=, 3 >, 4 >=
+VF_E unsigned year_cmp(int a, int b) { auto const x = ch::year{a}; auto const y = ch::year{b}; return unsigned(x == y) | (unsigned(x < y) << 1) | (unsigned(x <= y) << 2) | (unsigned(x > y) << 3) | (unsigned(x >= y) << 4); }
+VF_E unsigned month_cmp(unsigned a, unsigned b) { auto const x = ch::month{a}; auto const y = ch::month{b}; return unsigned(x == y) | (unsigned(x < y) << 1) | (unsigned(x <= y) << 2) | (unsigned(x > y) << 3) | (unsigned(x >= y) << 4); }
+VF_E unsigned day_cmp(unsigned a, unsigned b) { auto const x = ch::day{a}; auto const y = ch::day{b}; return unsigned(x == y) | (unsigned(x < y) << 1) | (unsigned(x <= y) << 2) | (unsigned(x > y) << 3) | (unsigned(x >= y) << 4); }
+// operator== of the composite classes: bit 0 year_month, 1 year_month_day, 2 month_day, 3 month_day_last, 4 month_weekday, 5 month_weekday_last, 6 weekday, 7 weekday_indexed, 8 weekday_last
+VF_E unsigned eq_all(int y, unsigned m, unsigned d, unsigned w, unsigned i, int y2, unsigned m2, unsigned d2, unsigned w2, unsigned i2) {
+    auto const Y = ch::year{y}; auto const M = ch::month{m}; auto const D = ch::day{d}; auto const W = ch::weekday{w};
+    auto const Y2 = ch::year{y2}; auto const M2 = ch::month{m2}; auto const D2 = ch::day{d2}; auto const W2 = ch::weekday{w2};
+    unsigned r = 0;
+    if (ch::year_month{Y, M} == ch::year_month{Y2, M2}) { r |= 1U; }
+    if (ch::year_month_day{Y, M, D} == ch::year_month_day{Y2, M2, D2}) { r |= 2U; }
+    if (ch::month_day{M, D} == ch::month_day{M2, D2}) { r |= 4U; }
+    if (ch::month_day_last{M} == ch::month_day_last{M2}) { r |= 8U; }
+    if (ch::month_weekday{M, ch::weekday_indexed{W, i}} == ch::month_weekday{M2, ch::weekday_indexed{W2, i2}}) { r |= 16U; }
+    if (ch::month_weekday_last{M, ch::weekday_last{W}} == ch::month_weekday_last{M2, ch::weekday_last{W2}}) { r |= 32U; }
+    if (W == W2) { r |= 64U; }
+    if (ch::weekday_indexed{W, i} == ch::weekday_indexed{W2, i2}) { r |= 128U; }
+    if (ch::weekday_last{W} == ch::weekday_last{W2}) { r |= 256U; }
+    return r; }
+// the local_days constructors (separate function bodies from the sys_days ones)
+VF_E void ymd_from_local(int z, int* y, unsigned* m, unsigned* d) { ch::year_month_day ymd{ch::local_days{ch::days{z}}}; *y = int{ymd.year()}; *m = unsigned{ymd.month()}; *d = unsigned{ymd.day()}; }
+VF_E unsigned wd_from_local(int z) { return ch::weekday{ch::local_days{ch::days{z}}}.c_encoding(); }
 }
